@@ -1828,10 +1828,17 @@ def _levels(repo, col, R="R-C01-levels"):
                            (x.op == "mcall" and x.name == "searchsorted"))
         from_raw = per_child is not None and T.find(per_child, lambda x: x.op == "mcall" and x.name == "unique" and x is not per_child) is None
         grouped = T.find(cb, lambda x: x.op == "mcall" and x.name == "repeat") is not None
+        # a running count of CHANGES of the parent (cumsum(diff(parents) != 0)): the number of runs so far, which is the rank only if equal
+        # parents are adjacent and ascending
+        runs = per_child is None and T.find(cb, lambda x: x.op == "mcall" and x.name == "cumsum" and
+                                            T.find(x, lambda y: y.op == "mcall" and y.name in ("diff", "ediff1d", "roll")) is not None) is not None
         col.add(R, fi, "child -> branch point: rank of the child's parent among the distinct parents, looked up PER CHILD",
-                "DISCHARGED" if (per_child is not None and from_raw) else ("VIOLATED" if (grouped or per_child is not None) else "UNDECIDED"),
+                "DISCHARGED" if (per_child is not None and from_raw) else ("VIOLATED" if (grouped or runs or per_child is not None) else "UNDECIDED"),
                 "remap_to_consecutive(parent of each child)" if (per_child is not None and from_raw) else
-                (f"the map is built as {cb.short(100)}: repeating each branch point by its number of children assumes that the children of "
+                (f"the map is built as {cb.short(100)}: a running count of the places where the parent CHANGES numbers the runs of equal parents; that is "
+                 f"the parent's rank only when the edge table lists the children of one parent next to each other and the parents in ascending order "
+                 f"(parents [-1, 0, 0, 1, 1, 3, 3, 2, 2] are not): children attach to another parent's branch point" if runs else
+                 f"the map is built as {cb.short(100)}: repeating each branch point by its number of children assumes that the children of "
                  f"one parent are listed consecutively; for parents such as [-1, 0, 0, 1, 2, 1] children attach to another parent's "
                  f"branch point" if grouped else
                  f"the map is computed from the already de-duplicated parents ({cb.short(80)}): children lose their branch point"),
